@@ -16,7 +16,7 @@ LEVEL = "proof"
 TRUSTED_BASE = [
     "IEEE sign facts: products, quotients and sums of non-negative floats are non-negative; abs and clip(x, lo >= 0) are non-negative",
     "ensures result >= eps >= 0 of hals_nnls / fista (proved in C13 at enumerated sizes), active_set_nnls (bounded stand-in in C13) — used by contract",
-    "svd contract for the SVD initialisation (values arbitrary: the abs / NNDSVD step must make them non-negative whatever they are)",
+    "svd_interface by contract in the initialisers: orthonormal factors with arbitrary signs without the non-negative option (the callers' abs must make them non-negative), entrywise non-negative factors with it (make_svd_non_negative: proved entrywise non-negative and defined in C05 at enumerated shapes, bounded beyond)",
     "numpy primitive contracts; CPython; loop extraction",
 ]
 ASSUMPTIONS = [
@@ -226,6 +226,14 @@ def obligations(tier):
     from . import wrappers as _W
     obs.extend(_W.obligations(PID, select=("CP_NN", "CP_NN_HALS", "Tucker_NN", "Tucker_NN_HALS", "ConstrainedCP", "Parafac2"),
                               only=("nn_modes", "non_negative", "init", "normalize_factors", "sparsity_coefficients", "core_sparsity_coefficient", "fixed_modes", "algorithm", "exact", "rank")))
+    # ====================================================================== non-negatively constrained CP: the factor of every mode declared non-negative is the output of
+    # the proximal operator for THAT mode's specification (initialiser, ADMM exits, every sweep, with and without fixed modes) - the provenance obligations of
+    # C11 on the same call sites, re-discharged here; entrywise non-negativity of the non-negativity operator's output is C12's (clip at 0)
+    from . import c11 as _c11
+    for ob in _c11.obligations(tier):
+        if type(ob) is GOb and ob.function.endswith((":initialize_constrained_parafac", ":admm", ":constrained_parafac")):
+            obs.append(GOb(PID, f"{PID}/" + ob.name.split("/", 1)[1], ob.function, ob.setup, ob.call, ob.post, tenalg=ob.tenalg, assumptions=ob.assumptions, side_nonzero=ob.side_nonzero,
+                           instance=dict(ob.instance, source="C11"), clause=ob.clause, forall=list(ob.forall), enumerated=list(ob.enumerated)))
     return obs
 
 
